@@ -21,7 +21,7 @@ fn gen(t: &mut Tape, _tier: Tier) -> Scenario {
             1 => l.saturating_sub(1),
             2 => l + 1,
             3 => 0,
-            4 => 1 << 63,
+            4 => [1u64 << 63, u64::MAX - 1, (1 << 63) | l, 1 << 32, (1 << 32) + l][t.below(5) as usize],
             5 => l + t.range(2, 300),
             6 => l.saturating_sub(t.range(2, 300)),
             _ => l,
